@@ -371,10 +371,11 @@ def property_predicate(case, impl, mode):
                 break
             if tracking and g != acc:
                 diff = [(a, b, str(g[a][b]), str(acc[a][b])) for a in range(rows) for b in range(cols) if g[a][b] != acc[a][b]]
-                key = "C14:outside-credited-elsewhere" if outside_since_reset else "C14:accounting"
+                over = any(g[a][b] > acc[a][b] for a in range(rows) for b in range(cols))
+                key = "C14:outside-credited-elsewhere" if (outside_since_reset and over) else "C14:accounting"
                 bad.append((key, f"op #{i} read: reported charge differs from the sum of what was added since the last reset at "
                                  f"(row, col, reported, expected) {diff[:4]}"
-                                 + (" — a cluster outside the sensitive area was credited to a pixel" if outside_since_reset else ""), i))
+                                 + (" — a cluster outside the sensitive area was credited to a pixel" if (outside_since_reset and over) else ""), i))
                 break
             if r["frame"]:
                 fsum = [[Fraction(0)] * cols for _ in range(rows)]
